@@ -117,6 +117,20 @@ def watch(ureg):
     return stats
 
 
+def _items(d):
+    """Exponent dict -> comparable list; 1 and Fraction(1, 1) are the same exponent (which of the two a
+    memo layer hands back depends on who filled it first - a representation detail, not an answer)."""
+    from fractions import Fraction
+    out = []
+    for k, v in sorted(d.items()):
+        if isinstance(v, (int, Fraction)):
+            v = str(Fraction(v))
+        else:
+            v = repr(v)
+        out.append((k, v))
+    return out
+
+
 def answer(ureg, pint, q):
     """One read-only question -> comparable value."""
     try:
@@ -124,28 +138,28 @@ def answer(ureg, pint, q):
         if kind == "convert":
             return repr(ureg.convert(ureg.non_int_type(1), q[1], q[2]))
         if kind == "parse_units":
-            return repr(sorted(ureg.parse_units(q[1])._units._d.items()))
+            return repr(_items(ureg.parse_units(q[1])._units._d))
         if kind == "parse_expression":
             r = ureg.parse_expression(q[1])
-            return repr((r.magnitude, sorted(r._units._d.items())))
+            return repr((r.magnitude, _items(r._units._d)))
         if kind == "base":
             f, u = ureg.get_base_units(q[1])
-            return repr((f, sorted(u._units._d.items())))
+            return repr((f, _items(u._units._d)))
         if kind == "root":
             f, u = ureg.get_root_units(q[1])
-            return repr((f, sorted(u._units._d.items())))
+            return repr((f, _items(u._units._d)))
         if kind == "dim":
-            return repr(sorted(ureg.get_dimensionality(q[1]).items()))
+            return repr(_items(dict(ureg.get_dimensionality(q[1]))))
         if kind == "compat":
             return repr(sorted(str(x) for x in ureg.get_compatible_units(q[1])))
         if kind == "format":
             return format(ureg.Quantity(ureg.non_int_type("2.5"), q[1]), q[2])
         if kind == "compact":
             r = ureg.Quantity(q[2], q[1]).to_compact()
-            return repr((r.magnitude, sorted(r._units._d.items())))
+            return repr((r.magnitude, _items(r._units._d)))
         if kind == "to_base":
             r = ureg.Quantity(q[2], q[1]).to_base_units()
-            return repr((r.magnitude, sorted(r._units._d.items())))
+            return repr((r.magnitude, _items(r._units._d)))
     except pint.DimensionalityError:
         return "DimensionalityError"
     except pint.UndefinedUnitError:
